@@ -211,6 +211,29 @@ def assumptions_of(drv, pid):
     return ['Print Assumptions of %s (in order %s): %s' % (pid + '.v', ', '.join(names), txt.replace('\n', ' | '))]
 
 
+def library_crash(out):
+    """Did the harness die of a Go panic / fatal error whose panicking goroutine is running library code (and not the
+    harness's own)?  Returns None or {headline, frame, stack}."""
+    m = re.search(r'^(panic: .*|fatal error: .*)$', out, re.M)
+    if not m:
+        return None
+    rest = out[m.start():]
+    g = re.search(r'^goroutine \d+ \[[^\]]*\]:\n((?:.+\n?)+)', rest, re.M)
+    if not g:
+        return None
+    stack = g.group(1)
+    for line in stack.split('\n'):
+        if not line or line.startswith('\t') or line.startswith(' '):
+            continue
+        fn = line.strip()
+        if fn.startswith('runtime.') or fn.startswith('panic(') or fn.startswith('created by runtime') or fn.startswith('internal/') or fn.startswith('sync.') or fn.startswith('reflect.'):
+            continue
+        if 'go-collection-framework/v4' in fn:
+            return dict(headline=m.group(1), frame=fn, stack=rest[:4000])
+        return None       # the harness's own code panicked: a fault of the machinery
+    return None
+
+
 def violation(drv, pid, replay_obj, suffix=''):
     rdir = os.path.join(drv.BUILD, 'replay')
     os.makedirs(rdir, exist_ok=True)
@@ -349,10 +372,23 @@ def check(drv, pid, tier, seed):
     count = cfg[tier if tier in ('quick', 'thorough') else 'quick']
     tg = time.time()
     harness_bin = drv.HARNESS_RACE_BIN if cfg.get('race') else drv.HARNESS_BIN
+    marker = os.path.join(outdir, 'current_case.txt')
     rc, out = drv.run([harness_bin, 'gen', pid, '-seed', str(seed), '-tier', tier, '-out', outdir, '-count', str(count)],
-                      env=drv.GOENV, timeout=3000)
+                      env=dict(drv.GOENV, VERIF_MARKER=marker), timeout=3000)
     gen_s = round(time.time() - tg, 1)
     if rc != 0:
+        crash = library_crash(out)
+        if crash:
+            # the harness process was killed from inside the library (a runtime error in a goroutine the library started, which no
+            # recover() of the caller can stop): that is a failure of the library on the input it was given, not of the machinery
+            given = open(marker).read() if os.path.exists(marker) else None
+            violation(drv, pid, dict(property=pid, seed=seed, tier=tier, count=count, case='crash', kind='crash',
+                                     failing_input=given,
+                                     what='the process running the library was killed: ' + crash['headline'],
+                                     panicking_goroutine=crash['stack'][:3000],
+                                     explanation='the first frame of the panicking goroutine outside the Go runtime is inside the library (%s); the caller cannot recover from a panic in a goroutine the library started itself. The input is the one the harness had just handed to the library%s' % (crash['frame'], '' if given else ' (this generator does not record it: see the stack)')),
+                      '' if given else 'no-failing-input-found')
+            return 1
         print('check: harness failed:\n' + out[-3000:])
         return 2
     meta = json.load(open(os.path.join(outdir, 'cases.json')))
